@@ -9,13 +9,13 @@ ATTRS = [
  'tal:omit-tag=""', 'tal:omit-tag="c"', 'tal:attributes="title t; class c"', 'tal:attributes="d"', 'tal:switch="c"', 'tal:case="1"', 'tal:case="default"', 'tal:on-error="string:ERR"',
  'i18n:translate=""', 'i18n:translate="mid"', 'i18n:name="n1"', 'i18n:name="n2"', 'i18n:domain="dom"', 'i18n:context="ctx"', 'i18n:target="\'de\'"', 'i18n:attributes="title"',
  'metal:define-macro="m1"', 'metal:define-macro="m2"', 'metal:use-macro="template.macros[\'m1\']"', 'metal:use-macro="lib.macros[\'L\']"', 'metal:define-slot="s"', 'metal:fill-slot="s"', 'metal:extend-macro="lib.macros[\'L\']"',
- 'meta:interpolation="false"', 'title="T ${t}"', 'class="k"', 'checked="${c}"',
+ 'meta:interpolation="false"', 'tal:content="string:${t} $$ x"', 'tal:replace="structure t"', 'tal:define="(a, b) (1, 2)"', 'tal:repeat="(k, v) d.items()"', 'tal:attributes="checked c; d"', 'tal:condition="not: c"', 'tal:condition="exists: zz"', 'tal:content="zz | t"', 'tal:on-error="structure t"', 'i18n:translate="" tal:content="t"', 'tal:comment="note"', 'tal:define="x repeat.i.index|0"', 'xml:lang="en"', 'tal:attributes="class default; title None"', 'title="T ${t}"', 'class="k"', 'checked="${c}"',
 ]
 def gen(depth):
     attrs = rng.sample(ATTRS, rng.choice([0, 1, 1, 2, 2, 3, 4]))
     kids = ''
     for _ in range(rng.randint(0, 3)):
-        kids += gen(depth + 1) if depth < 3 and rng.random() < .55 else rng.choice(['txt ', '${t} ', '\n  ', '${c} x', '<!-- ${t} -->'])
+        kids += gen(depth + 1) if depth < 3 and rng.random() < .55 else rng.choice(['txt ', '${t} ', '\n  ', '${c} x', '<!-- ${t} -->', '<![CDATA[${t}]]>', '<?python q = 1 ?>', '<!--! x -->', '$${t}', '&amp;${structure: t}', '<br/>', '<input checked />'])
     tag = rng.choice(['div', 'p', 'tal:block', 'metal:block', 'span'])
     return '<%s %s>%s</%s>' % (tag, ' '.join(attrs), kids, tag)
 lib = PageTemplate('<div metal:define-macro="L">L[<i metal:define-slot="s">ds</i>]</div>')
